@@ -310,14 +310,20 @@ impl QueryCache {
 
     /// Invalidates a specific query from both caches.
     pub fn invalidate(&self, key: &CacheKey) {
-        self.parsed_cache.lock().remove(key);
-        self.optimized_cache.lock().remove(key);
+        // Both caches under their locks at once (always parsed, then optimized): the
+        // invalidation is one step for concurrent callers
+        let mut parsed = self.parsed_cache.lock();
+        let mut optimized = self.optimized_cache.lock();
+        parsed.remove(key);
+        optimized.remove(key);
     }
 
     /// Clears all cached entries.
     pub fn clear(&self) {
-        self.parsed_cache.lock().clear();
-        self.optimized_cache.lock().clear();
+        let mut parsed = self.parsed_cache.lock();
+        let mut optimized = self.optimized_cache.lock();
+        parsed.clear();
+        optimized.clear();
     }
 
     /// Returns cache statistics.
